@@ -134,6 +134,7 @@ type Frame struct {
 	iters       map[ssa.Value]*Iter
 	override    map[ssa.Value]Val // phi overrides while evaluating an invariant
 	invOf       *Frame            // invariant evaluation: frame whose locals are referenced
+	staleInv    map[*loop]bool    // loops whose written invariant no longer binds
 }
 
 type fact struct {
